@@ -194,3 +194,32 @@ Theorem get_in_out_degree_refines g gg ind outd s v : rep_graph gg g -> rep_div 
   CFOrientation_get_out_degree gg outd v = (if Nat.ltb v (nv g) then PyOk (nthZ (outc s) v) else PyExn tt).
 Proof. intros Hg (_ & _ & Hi) (_ & _ & Ho). unfold CFOrientation_get_in_degree, CFOrientation_get_out_degree. rewrite (rep_graph_mem gg g v Hg), (Hi v), (Ho v).
   destruct (Nat.ltb v (nv g)); split; reflexivity. Qed.
+
+(* The readers get_orientation / is_source / is_sink, translated from the current source (results typed Optional[...] become option): they raise exactly
+   when there is no such edge and otherwise report the recorded state of the edge as seen from the first argument. *)
+Section OR.
+Variable g : graph.
+Variables (gg oo : dictD) (s : ostate).
+Hypothesis Hgg : rep_graph gg g.
+Hypothesis Hoo : rep_orient oo g s.
+Local Notation n := (nv g).
+Definition edge_ok (a b : nat) : bool := Nat.ltb a n && Nat.ltb b n && (0 <? mult g a b).
+
+Ltac reader_prefix a b :=
+  cbn zeta; rewrite !(rep_graph_mem gg g _ Hgg); unfold edge_ok;
+  destruct (Nat.ltb a n) eqn:La; [|reflexivity]; destruct (Nat.ltb b n) eqn:Lb; [|reflexivity]; cbn [negb orb andb];
+  let Ha := fresh "Ha" in let Ho := fresh "Ho" in
+  pose proof (Hgg a) as Ha; rewrite La in Ha; destruct Ha as (row & Er & _ & Fr); rewrite Er; unfold d_mem; rewrite (Fr b);
+  destruct (0 <? mult g a b) eqn:Lm; [|reflexivity]; cbn [negb];
+  pose proof (Hoo a) as Ho; rewrite La in Ho; destruct Ho as (orow & Eo & _ & Fo); rewrite Eo, (Fo b), Lm.
+
+Theorem get_orientation_refines a b : CFOrientation_get_orientation gg oo a b =
+  if edge_ok a b then PyOk (if dir_at s a b =? 0 then None else if dir_at s a b =? 1 then Some (a, b) else Some (b, a)) else PyExn tt.
+Proof. unfold CFOrientation_get_orientation. reader_prefix a b. destruct (dir_at s a b =? 0); [reflexivity|]. destruct (dir_at s a b =? 1); reflexivity. Qed.
+Theorem is_source_refines a b : CFOrientation_is_source gg oo a b =
+  if edge_ok a b then PyOk (if dir_at s a b =? 0 then None else Some (dir_at s a b =? 1)) else PyExn tt.
+Proof. unfold CFOrientation_is_source. reader_prefix a b. destruct (dir_at s a b =? 0); reflexivity. Qed.
+Theorem is_sink_refines a b : CFOrientation_is_sink gg oo a b =
+  if edge_ok a b then PyOk (if dir_at s a b =? 0 then None else Some (dir_at s a b =? 2)) else PyExn tt.
+Proof. unfold CFOrientation_is_sink. reader_prefix a b. destruct (dir_at s a b =? 0); reflexivity. Qed.
+End OR.
